@@ -100,7 +100,7 @@ def main():
     baseline = json.load(open("/root/.vp/BASELINE.json"))["cmd"] if os.path.exists("/root/.vp/BASELINE.json") else ""
     m = {
         "version": 1,
-        "setup_cmd": "cd /verif/sim && CARGO_NET_OFFLINE=true cargo build --release --offline && cc -shared -fPIC -O2 -o /verif/target/entropy_shim.so /verif/sim/shim/entropy_shim.c",
+        "setup_cmd": "cd /verif/sim && CARGO_NET_OFFLINE=true cargo build --release --offline && (cd /verif/chunksim && cargo build --release --offline) && cc -shared -fPIC -O2 -o /verif/target/entropy_shim.so /verif/sim/shim/entropy_shim.c",
         "hooks": {
             "guard": "cargo feature `verif_hooks` of crate `starlark` (off by default; all hook code is #[cfg(feature = \"verif_hooks\")])",
             "enable": "the simulator crate /verif/sim depends on /repo/starlark by path with features = [\"verif_hooks\"]; every ./check rebuilds it from /repo's working tree",
